@@ -164,6 +164,18 @@ CLAIMS = {
               "caching off and on, with the model (sequences) and the ripple-down-rule interpreter (multisets)."),
         design='7/C12', technique='Coq proof (builder correctness by mutual induction with one-hole contexts; evaluation = RDR by mutual induction) + translator-extracted linking flags + structural and result correspondence',
         note=BASE_NOTE + " One rule variable with conditions on its attributes (a branch is decided per item); joins in branch conditions and next_rule are outside the model. The evaluation model (fire) abstracts ExceptIf/Alternative._evaluate__ for a bound item; it is tied by the row correspondence. Four defects were repaired in /repo (see known_findings.json)."),
+    'C11': dict(
+        text=("Machine-checked over the P-model, for every rule head (constructor arguments = rule variables, attribute chains, indexes, "
+              "calls, constants) and every body the user can write, any number of rule variables, heap and duplicate-free domains: "
+              "C11_one_per_assignment (exactly one instance is built from a binding agreeing with a satisfying assignment, none from a "
+              "non-satisfying one), C11_built_from_one_assignment (the binding an instance is built from assigns every rule variable the "
+              "head mentions one member of its domain - nothing is mixed), C11_fields_from_that_assignment (each field holds the value of "
+              "its expression under that same assignment; objects are passed by identity, constants whatever their truthiness). Tie: "
+              "generated rules built in rule mode through infer(entity(H(...), body)); every constructed object must be a NEW instance of "
+              "the head class, its fields are compared (heap objects by identity) with the model as a sequence and with the specification "
+              "as a multiset, caching off and on, evaluated twice."),
+        design='7/C11', technique='Coq proof (instances of the partition/counting invariant for selected expressions + binding lemmas by induction over terms and argument lists) + correspondence on constructed field tuples',
+        note=BASE_NOTE + " Nested constructor terms WITHOUT a domain inside a head are registry look-ups in the implementation (C14) and are not generated; nested terms with a domain are variables (C13). The registry side effect of inference is C14's. One defect was repaired in /repo (arguments combined by Cartesian product)."),
 }
 
 NOT_YET = {}
